@@ -399,10 +399,17 @@ func (c *c16) check(cs *Case, record bool) *Case {
 // first-use initialisation happens inside the interleaving.
 func (c *c16) runCold(cs *Case, record bool) *Case {
 	b, _ := json.Marshal(cs)
-	cmd := exec.Command(os.Args[0], "coldcase")
-	cmd.Stdin = strings.NewReader(string(b))
-	cmd.Env = append(os.Environ(), "SIM_COLD=1")
-	out, err := cmd.Output()
+	var out []byte
+	var err error
+	for attempt := 0; attempt < 3; attempt++ {
+		cmd := exec.Command(os.Args[0], "coldcase")
+		cmd.Stdin = strings.NewReader(string(b))
+		cmd.Env = append(os.Environ(), "SIM_COLD=1")
+		out, err = cmd.Output()
+		if _, isExit := err.(*exec.ExitError); err == nil || isExit {
+			break // ran (whatever its exit status); only failures to start are retried
+		}
+	}
 	if record {
 		c.st.Cold++
 		c.st.Exec++
